@@ -11,12 +11,9 @@ CLAIM = {
           'fetch of record k of an encoded file with (off, len) returns (payload.drop off).take len; len < 0 => drop '
           'only), get_full_eq_iter (the default fetch equals what the sequential read yields for that record) and '
           'touched_subset (every read of a fetch lies inside the visible records holding the record), positions_encode '
-          '(the position scan of a conformant file yields exactly the entries that follow from the layout: one per record '
-          'with its type, attribute byte of the first segment, positions and total body length). Residual gap, stated in '
-          'Props.lean: that entry k of the specification list specPositionsS carries the positions recEntry used by '
-          'get_slice / touched_subset (two walks over the same layout) has no general lemma; it is checked by kernel '
-          'evaluation on the example and on every run by the streams positions / spec_positions and the index oracle '
-          '(implementation entries == positions computed independently from the layout == positions fetched at). Every run ties the '
+          '(the position scan of a conformant file yields exactly the entries that follow from the layout), positions_count '
+          '(one entry per record) and positions_entry (entry k carries the positions at which get_slice / touched_subset '
+          'fetch, the attribute byte of the first segment, the record type and the summed body length). Every run ties the '
           'model to the source: files from the Lean spec encoder, LogicalRecordIndex on a read-counting BytesIO, histories '
           'of 20-200 fetches on ONE index object (repetitions, permutations, runs, reversed order) over an offset/length '
           'grid (segment boundaries +-1, beyond the end, negative lengths), plus a malformed stream. Proof is the right '
